@@ -22,7 +22,7 @@ def ruleAbsorbFromInterval(ts: datetime, _: Any, i: Interval) -> Interval:
 _dows = [
     ("mon", r"montags?|mondays?|mon?\.?"),
     ("tue", r"die?nstags?|die?\.?|tuesdays?|tue?\.?"),
-    ("wed", r"mittwochs?|mi\.?|wednesday?|wed\.?"),
+    ("wed", r"mittwochs?|mi\.?|wednesdays?|wed\.?"),
     ("thu", r"donn?erstags?|don?\.?|thursdays?|thur?\.?"),
     ("fri", r"freitags?|fridays?|fri?\.?"),
     ("sat", r"samstags?|sonnabends?|saturdays?|sat?\.?"),
